@@ -701,8 +701,8 @@ Section MuxImport.
   Qed.
 
   Lemma selw_facts : 1 <= selw <= 32 /\ s_gcount mx <= 2 ^ selw /\ 1 <= s_gcount mx /\ 1 <= s_gsize mx /\ s_gcount mx <= 2 ^ 32.
-  Proof.
-    destruct mx_top as [[_ [_ [_ [_ [_ [_ Hk]]]]]] _]. unfold is_muxb in Hmxm. destruct (s_kind mx); try discriminate.
+  Proof using Hmm Hmx Hmxm.
+    clear Henv Henvx Hext. destruct mx_top as [[_ [_ [_ [_ [_ [_ Hk]]]]]] _]. pose proof Hmxm as Hmk. unfold is_muxb in Hmk. destruct (s_kind mx); try discriminate.
     destruct Hk as [[Hg1 Hg2] Hgs]. unfold selw, sel_width, calc_size_from_value.
     destruct (s_gcount mx - 1 =? 0) eqn:E0.
     - change (2 ^ 1) with 2. lia.
@@ -1112,10 +1112,10 @@ Section MuxImport.
   Definition S0 : list signal := flat_map (fun t => t :: (if is_muxb t then walk_kids else [])) (filter is_topb sigs).
 
   Lemma kids_children : kids_ok sigs mx.
-  Proof. eapply kids_ok_of; eauto. Qed.
+  Proof using Hmm Hmx Hmxm. eapply kids_ok_of; eauto. Qed.
 
   Lemma child_in_sigs : forall c, In c (children sigs mx) -> In c sigs /\ is_topb c = false /\ child_ok mx c.
-  Proof.
+  Proof using Hmm Hmx Hmxm.
     intros c Hc. destruct kids_children as [HK _]. rewrite Forall_forall in HK. pose proof (HK c Hc) as Hok.
     unfold children in Hc. apply Proofs.In_sort_by in Hc. apply filter_In in Hc. destruct Hc as [Hc Hp].
     split; [assumption|]. split; [|assumption]. unfold is_topb. destruct (s_parent c); [reflexivity|discriminate].
@@ -1142,7 +1142,8 @@ Section MuxImport.
   Qed.
 
   Lemma S0_perm : Permutation sigs S0.
-  Proof.
+  Proof using Hmm Hmx Hmxm.
+    clear Henv Henvx Hext.
     pose proof Hms as [Hids [_ [_ [Hu [Hch _]]]]].
     assert (Hnd : NoDup sigs) by (eapply NoDup_map_inv; exact Hids).
     destruct mx_top as [_ Hmt].
@@ -1213,7 +1214,7 @@ Proof.
   pose proof Hmm as [Ha [Hc [Hdl [Hsd [Hst [Hid [Hsz [Hms [Hlay [Hsn [Hrc [Hrn Hre]]]]]]]]]]]].
   (* the sorted signal list is the image of a permutation *)
   pose proof (D_img es m mx names Hmm Hmx Hmxm) as HD.
-  pose proof (S0_perm es env m mx names Hmm Hmx Hmxm Henv) as HP0.
+  pose proof (S0_perm es m mx names Hmm Hmx Hmxm) as HP0.
   set (D := flat_map (tdsigs es (m_signals m) (m_order m) (recs_out m)) (filter is_topb (m_signals m))) in *.
   assert (Hsorted : exists S', sort_by (fun a b => get_start_bit a <? get_start_bit b) D = map (img es m mx) S' /\ Permutation (m_signals m) S').
   { assert (Hp : Permutation (sort_by (fun a b => get_start_bit a <? get_start_bit b) D) (map (img es m mx) (S0 m mx)))
@@ -1379,7 +1380,7 @@ Section MuxProj.
 
   Lemma selw_img : sel_width (mx_img mx mid gs) = sel_width mx.
   Proof.
-    destruct (selw_facts es env m mx names Hmm Hmx Hmxm Henv) as [Hs _].
+    destruct (selw_facts es m mx names Hmm Hmx Hmxm) as [Hs _].
     unfold sel_width at 1. cbn [s_gcount mx_img]. apply ProofsIds.calc_size_sel. lia.
   Qed.
 
